@@ -7,7 +7,7 @@
    differs from the amount's (exchange() then leaves the balance alone); two_entries: the
    balance has exactly two commodity entries (the implied-rate branch, stated separately). *)
 From LedgerV Require Import Base.Prelude Base.Round Model.Amount Model.Xact
-  Proofs.AmountProofs Proofs.XactProofs Proofs.GainLossProofs Gen.SourceGuards.
+  Proofs.AmountProofs Proofs.XactProofs Proofs.GainLossProofs Proofs.VirtualProofs Gen.SourceGuards.
 From Coq Require Import Qabs.
 Local Open Scope Q_scope.
 
@@ -145,6 +145,33 @@ Theorem nonbalancing_postings_play_no_part_in_gain_loss : forall ord cp ps bal p
   exists ps'', exchange_posts ord cp (filter must_balance ps) bal = Ok (ps'', bal').
 Proof. exact exchange_posts_skips_nonbalancing. Qed.
 Print Assumptions nonbalancing_postings_play_no_part_in_gain_loss.
+
+(* end to end: for a transaction in which every posting has an amount and the postings that need not balance carry no
+   cost, finalize reaches the same decision - accepted, or the very same error - with and without those postings,
+   through the balance scan, the implied-rate branch and the gain/loss pass alike (for every pool, hash order and
+   number of postings).  A (virtual) posting WITH a written cost is outside: it stops the search for an implied rate
+   (xact.cc `saw_cost`), as a real one does. *)
+Theorem virtual_postings_do_not_decide_acceptance : forall ord cp ps,
+  all_amounts ps -> plain_virtuals ps -> mb_only ps <> [] ->
+  decision_of (finalize ord cp None (mb_only ps)) = decision_of (finalize ord cp None ps).
+Proof. exact virtual_postings_do_not_decide. Qed.
+Print Assumptions virtual_postings_do_not_decide_acceptance.
+
+Example ex_virtual_postings_do_not_decide :
+  let eur q := mkAmt q 2 false (Some [69; 85; 82]%Z) in
+  let usd q := mkAmt q 2 false (Some [36%Z]) in
+  let ps := [mkPost [65%Z] PReal (Some (eur 100)) None None false false false;
+             mkPost [86%Z] PVirtual (Some (eur 40)) None None false false false;
+             mkPost [66%Z] PReal (Some (usd (-120))) None None false false false] in
+  all_amounts ps /\ plain_virtuals ps /\ mb_only ps <> [] /\
+  decision_of (finalize false (fun _ => 2%Z) None ps) = DAccepted.
+Proof.
+  cbv zeta. split; [|split; [|split]].
+  - intros p [<-|[<-|[<-|[]]]]; discriminate.
+  - intros p [<-|[<-|[<-|[]]]]; cbn; intros H; try reflexivity; discriminate.
+  - cbn. discriminate.
+  - vm_compute. reflexivity.
+Qed.
 
 (* the tie to the source by translation: the lines of /repo/src this model transcribes (harness/translators/src_guards.py
    lists them, with the function each is looked for in) are still there, in the same order, in the source as it is NOW -
